@@ -20,7 +20,7 @@ import (
 
 // Mut is one mutation of a well-formed stream.
 type Mut struct {
-	Kind  string // truncate | field | type | trailing | insert | none
+	Kind  string // truncate | field | type | trailing | insert | grow_with_junk | none
 	List  int    // which list (mod number of lists)
 	Field int    // 0 ListSize, 1 HeaderSize, 2 SignatureSize
 	Value uint32 // new field value (kind field)
@@ -77,8 +77,14 @@ func genMut(t *rapid.T, stream []byte, lists []esl.List) Mut {
 		m.Kind = "trailing"
 		m.Tail = gen.FillBytes(t, rapid.IntRange(1, 60).Draw(t, "tail"))
 	default:
-		m.Kind = "insert"
-		m.Tail = gen.FillBytes(t, rapid.IntRange(1, 30).Draw(t, "ins"))
+		if rapid.Bool().Draw(t, "grow") {
+			// the list claims r more bytes and r junk bytes are really there (before the next list)
+			m.Kind = "grow_with_junk"
+			m.Tail = gen.FillBytes(t, rapid.IntRange(1, 60).Draw(t, "junk"))
+		} else {
+			m.Kind = "insert"
+			m.Tail = gen.FillBytes(t, rapid.IntRange(1, 30).Draw(t, "ins"))
+		}
 	}
 	return m
 }
@@ -138,6 +144,22 @@ func apply(stream []byte, muts []Mut) []byte {
 			}
 		case "trailing":
 			out = append(out, m.Tail...)
+		case "grow_with_junk":
+			if len(offs) > 0 {
+				k := m.List % len(offs)
+				o := offs[k]
+				if o+20 <= len(out) {
+					ls := binary.LittleEndian.Uint32(out[o+16:])
+					end := o + int(ls)
+					if end <= len(out) && end >= o {
+						binary.LittleEndian.PutUint32(out[o+16:], ls+uint32(len(m.Tail)))
+						out = append(out[:end:end], append(append([]byte{}, m.Tail...), out[end:]...)...)
+						for j := k + 1; j < len(offs); j++ {
+							offs[j] += len(m.Tail)
+						}
+					}
+				}
+			}
 		case "insert":
 			if len(offs) > 0 {
 				o := offs[m.List%len(offs)]
@@ -196,7 +218,7 @@ func checkCase(c Case) error {
 	if err := checkInput(in, class); err != nil {
 		return err
 	}
-	if c.AllCuts {
+	if c.AllCuts && len(in) <= 1500 {
 		for cut := 0; cut < len(in); cut++ {
 			if _, err := esl.Decode(in[:cut]); err != nil {
 				hx.NonTrivial(in[:cut])
